@@ -128,6 +128,20 @@ def run(out: common.Outcome):
                 out.report({"kind": "collectonly-installs-dsession"}, {"pre": pre, "post": o}, {"input": i})
             if o[3] and pre[5] and not pre[6]:
                 out.report({"kind": "pdb-with-distribution-accepted"}, {"pre": pre, "post": o}, {"input": i})
+        elif o[0] == "err":
+            # the only documented rejection: --pdb (or -f with --pdb) together with a run that WOULD be distributed.
+            # No execution environment (no -n / -n0, no --tx) means no distribution, whatever --dist says.
+            np, tx, pdb, co, loop = pre[0], pre[4], pre[5], pre[6], pre[7]
+            if np == []:
+                no_env = not tx                                   # no -n: the --tx list is the environment
+            elif isinstance(np, str):
+                no_env = bool(pdb)                                # -n auto/logical with --pdb means 0
+            else:
+                no_env = np[0] <= 0                               # -n0 (and a negative count) starts no worker
+            if pdb and no_env and not loop:
+                out.report({"kind": "pdb-rejected-although-nothing-is-distributed"}, {"pre": pre, "post": o}, {"input": i})
+            if not pdb:
+                out.report({"kind": "rejected-without-pdb"}, {"pre": pre, "post": o}, {"input": i})
 
     # ---- parse_tx_spec_config / int() / auto default on generated strings
     txs = [[rnd.choice(["popen", "2*popen", "ssh=x//chdir=y"]) for _ in range(rnd.randint(0, 3))] for _ in range(n_small // 2)]
